@@ -60,7 +60,7 @@ theorem kinv_step (cfg : Cfg) {s s' : State} (a : Action) (hI : KInv s) (h : ste
             hI.lt_reqs, hI.lt_inbox⟩ i x _ hx (nokey hnk)
         · split at h
           · cases h
-            exact kinv_keep (t := { s with total := s.total + 1, conns := s.conns ++ [_] })
+            exact kinv_keep (t := { s with total := s.total + 1 })
               ⟨hI.rd_reqs, hI.rd_inbox, hI.disj, hI.nd_reqs, hI.nd_inbox, hI.lt_reqs, hI.lt_inbox⟩ i x _ hx (nokey hnk)
           · cases h
             have hlt := lt_of_getElem? hx
@@ -97,6 +97,18 @@ theorem kinv_step (cfg : Cfg) {s s' : State} (a : Action) (hI : KInv s) (h : ste
               have := hI.lt_inbox e he
               show e.1 < s.nextKey + 1
               omega
+      · cases h
+    · cases h
+  | mk i =>
+    simp only [step] at h
+    split at h
+    · rename_i x hx
+      split at h
+      · rename_i hp
+        have hnk : pcKey x.pc = none := by simp [hp, pcKey]
+        cases h
+        exact kinv_keep (t := { s with conns := s.conns ++ [{ dead := false, ready := false, orphan := false }] })
+          ⟨hI.rd_reqs, hI.rd_inbox, hI.disj, hI.nd_reqs, hI.nd_inbox, hI.lt_reqs, hI.lt_inbox⟩ i x _ hx (nokey hnk)
       · cases h
     · cases h
   | check i =>
